@@ -17,7 +17,7 @@
 #include <stdint.h>
 #include <string.h>
 
-#define MAXL 96
+#define MAXL 288
 #define INF 1000000
 
 typedef struct {
